@@ -363,8 +363,38 @@ def r4_model_loop(ctx):
     c = f"{GRP}.__iter__"
     yields = [n for n in walk_ordered(it.node) if isinstance(n, (ast.Yield, ast.YieldFrom))]
     if not yields:
-        # maybe returns a generator expression / filter
-        raise AnalysisError("ModelGroup.__iter__ has no yield (unknown construct)")
+        # returns an iterator: it must be built, at iteration time, from self.models filtered on .enabled
+        rets = [r for r in returns_of(it) if r.value is not None]
+        for r in rets:
+            v = expand(it, r.value)
+            while isinstance(v, ast.Call) and call_name(v) in ("iter", "list", "tuple") and v.args:
+                v = v.args[0]
+            ok = False
+            why = f"__iter__ returns {norm(v)[:80]}: the enabled filter is not evaluated over self.models at iteration time (a stale or unfiltered model list would be executed)"
+            if isinstance(v, (ast.GeneratorExp, ast.ListComp)) and len(v.generators) == 1:
+                gen = v.generators[0]
+                vv = gen.target.id if isinstance(gen.target, ast.Name) else None
+                ok = dotted(gen.iter) == "self.models" and dotted(v.elt) == vv and [norm(x) for i in gen.ifs for x in conjuncts(i)] == [f"{vv}.enabled"]
+                if ok:
+                    why = "returns the enabled models of self.models, evaluated at iteration time"
+            elif isinstance(v, ast.Call) and call_name(v) == "filter":
+                ok = False
+            ctx.check(ok, c, why, where=it, node=r)
+        if not rets:
+            ctx.fail(c, "__iter__ neither yields nor returns an iterator", where=it, node=it.node)
+        # any state kept between iterations defeats the per-readout evaluation of .enabled
+        for st in walk_ordered(it.node):
+            if isinstance(st, (ast.Assign, ast.AugAssign, ast.AnnAssign)):
+                tg = st.targets if isinstance(st, ast.Assign) else [st.target]
+                for t in tg:
+                    if isinstance(t, ast.Attribute) and dotted(t.value) == "self":
+                        ctx.fail(c + "#cache", f"__iter__ stores {norm(t)} on the group: enabled models are remembered across readouts/runs", where=it, node=st)
+    for st in walk_ordered(it.node) if yields else []:
+        if isinstance(st, (ast.Assign, ast.AugAssign, ast.AnnAssign)):
+            tg = st.targets if isinstance(st, ast.Assign) else [st.target]
+            for t in tg:
+                if isinstance(t, ast.Attribute) and dotted(t.value) == "self":
+                    ctx.fail(c + "#cache", f"__iter__ stores {norm(t)} on the group: enabled models are remembered across readouts/runs", where=it, node=st)
     for y in yields:
         if isinstance(y, ast.YieldFrom):
             src = expand(it, y.value)
